@@ -149,9 +149,7 @@ def match_known(pid, witness_text, known):
 
 def run_one(text, cfg):
     """impl + model streams of a single scenario (in-process impl)."""
-    import impl
-    import implx
-    im = impl.run_text(text, getattr(implx, cfg.get('runner', 'FullRunner')))
+    im = corr._impl_worker((cfg.get('runner', 'FullRunner'), [text]))[0]
     mo = corr.run_model([text], procs=1)[0]
     return im, mo
 
